@@ -158,9 +158,68 @@ impl<W: SimWord> WordSeek for FaultyWordRead<W> {
     }
 }
 
+/// Stub read backend for "scale" scenarios: `head` words, then `zeros` all-zero words that
+/// occupy no memory, then `tail` words; strict beyond the end.
+#[derive(Debug, Clone)]
+pub struct SparseWordRead<W> {
+    pub head: Rc<Vec<W>>,
+    pub zeros: u64,
+    pub tail: Rc<Vec<W>>,
+    pub pos: u64,
+}
+
+impl<W: SimWord> SparseWordRead<W> {
+    pub fn total(&self) -> u64 {
+        self.head.len() as u64 + self.zeros + self.tail.len() as u64
+    }
+}
+
+impl<W: SimWord> WordRead for SparseWordRead<W> {
+    type Error = SimErr;
+    type Word = W;
+    #[inline]
+    fn read_word(&mut self) -> Result<W, SimErr> {
+        let h = self.head.len() as u64;
+        let w = if self.pos < h {
+            self.head[self.pos as usize]
+        } else if self.pos < h + self.zeros {
+            W::from_u128(0)
+        } else if self.pos < self.total() {
+            self.tail[(self.pos - h - self.zeros) as usize]
+        } else {
+            return Err(SimErr {
+                kind: ErrorKind::UnexpectedEof,
+                msg: "end of sparse stream".into(),
+            });
+        };
+        self.pos += 1;
+        Ok(w)
+    }
+}
+impl<W: SimWord> WordSeek for SparseWordRead<W> {
+    type Error = SimErr;
+    fn word_pos(&mut self) -> Result<u64, SimErr> {
+        Ok(self.pos)
+    }
+    fn set_word_pos(&mut self, p: u64) -> Result<(), SimErr> {
+        if p > self.total() {
+            return Err(SimErr {
+                kind: ErrorKind::UnexpectedEof,
+                msg: "seek beyond end".into(),
+            });
+        }
+        self.pos = p;
+        Ok(())
+    }
+}
+
 /// What the word sink saw, in order.
 #[derive(Debug, Default)]
 pub struct WordLog {
+    /// sparse mode (scale scenarios): only non-zero words are kept, with their index
+    pub sparse: bool,
+    pub count: u64,
+    pub nonzero: Vec<(u64, u128)>,
     /// every word accepted by the backend, as u128
     pub words: Vec<u128>,
     pub flushes: u64,
@@ -181,6 +240,7 @@ pub enum RdInner<W: SimWord> {
     Cursor(WordAdapter<W, Cursor<Vec<u8>>>),
     BufCursor(WordAdapter<W, BufReader<Cursor<Vec<u8>>>>),
     Faulty(FaultyWordRead<W>),
+    Sparse(SparseWordRead<W>),
 }
 
 #[derive(Debug, Default)]
@@ -209,7 +269,7 @@ impl<W: SimWord> AnyWordRead<W> {
     pub fn can_clone(&self) -> bool {
         matches!(
             self.inner,
-            RdInner::MemInf(_) | RdInner::MemStrict(_) | RdInner::Adapter(_) | RdInner::Cursor(_) | RdInner::Faulty(_)
+            RdInner::MemInf(_) | RdInner::MemStrict(_) | RdInner::Adapter(_) | RdInner::Cursor(_) | RdInner::Faulty(_) | RdInner::Sparse(_)
         )
     }
 }
@@ -222,6 +282,7 @@ impl<W: SimWord> Clone for AnyWordRead<W> {
             RdInner::Adapter(r) => RdInner::Adapter(r.clone()),
             RdInner::Cursor(r) => RdInner::Cursor(r.clone()),
             RdInner::Faulty(r) => RdInner::Faulty(r.clone()),
+            RdInner::Sparse(r) => RdInner::Sparse(r.clone()),
             _ => panic!("harness error: clone of a non-clonable backend"),
         };
         // the clone gets its own counters (a copy), published through a
@@ -266,6 +327,7 @@ impl<W: SimWord> WordRead for AnyWordRead<W> {
             RdInner::Cursor(r) => r.read_word().map_err(SimErr::from),
             RdInner::BufCursor(r) => r.read_word().map_err(SimErr::from),
             RdInner::Faulty(r) => r.read_word(),
+            RdInner::Sparse(r) => r.read_word(),
         };
         let mut st = self.stats.borrow_mut();
         match &r {
@@ -292,6 +354,7 @@ impl<W: SimWord> WordSeek for AnyWordRead<W> {
             RdInner::Cursor(r) => r.word_pos().map_err(SimErr::from),
             RdInner::BufCursor(r) => r.word_pos().map_err(SimErr::from),
             RdInner::Faulty(r) => r.word_pos(),
+            RdInner::Sparse(r) => r.word_pos(),
         }
     }
     fn set_word_pos(&mut self, p: u64) -> Result<(), SimErr> {
@@ -305,6 +368,7 @@ impl<W: SimWord> WordSeek for AnyWordRead<W> {
             RdInner::Cursor(r) => r.set_word_pos(p).map_err(SimErr::from),
             RdInner::BufCursor(r) => r.set_word_pos(p).map_err(SimErr::from),
             RdInner::Faulty(r) => r.set_word_pos(p),
+            RdInner::Sparse(r) => r.set_word_pos(p),
         };
         if r.is_ok() {
             self.cursor = p;
@@ -351,7 +415,14 @@ impl<W: SimWord> WordWrite for AnyWordWrite<W> {
             WrInner::Adapter(w) => w.write_word(word).map_err(SimErr::from),
             WrInner::BufAdapter(w) => w.write_word(word).map_err(SimErr::from),
             WrInner::Rec { refuse_at } => {
-                let n = self.log.borrow().words.len() as u64;
+                let n = {
+                    let l = self.log.borrow();
+                    if l.sparse {
+                        l.count
+                    } else {
+                        l.words.len() as u64
+                    }
+                };
                 if *refuse_at == Some(n) {
                     Err(SimErr {
                         kind: ErrorKind::Other,
@@ -364,7 +435,18 @@ impl<W: SimWord> WordWrite for AnyWordWrite<W> {
         };
         let mut log = self.log.borrow_mut();
         match &r {
-            Ok(()) => log.words.push(word.as_u128()),
+            Ok(()) => {
+                if log.sparse {
+                    let x = word.as_u128();
+                    if x != 0 && log.nonzero.len() < 100_000 {
+                        let c = log.count;
+                        log.nonzero.push((c, x));
+                    }
+                    log.count += 1;
+                } else {
+                    log.words.push(word.as_u128());
+                }
+            }
             Err(_) => log.refused += 1,
         }
         r
